@@ -77,6 +77,7 @@ Definition astep (a : astate) (s : stmt) : astate :=
   match s with
   | SAlloc id sz k => a_store a id sz k 0 0
   | SFree id => a_with_recs a (drop id (a_recs a))
+  | SRealloc id sz => a_store (a_with_recs a (drop id (a_recs a))) id sz 2 0 0
   | _ => a
   end.
 
@@ -104,6 +105,17 @@ Proof.
       * rewrite drop_notin by (apply live_false; assumption). rewrite a_with_same. assumption.
       * cbn [a_with_recs a_recs]. rewrite addrs_drop. assumption.
     + apply IH; [assumption|]. cbn [a_with_recs a_recs]. rewrite addrs_drop. assumption.
+  - cbn [mem_stmt astep]. repeat (apply andb_true_iff in HV; destruct HV as [HV ?]).
+    assert (Hnl : live id (drop id (a_recs a)) = false).
+    { rewrite live_addrs, addrs_drop. apply not_true_iff_false. intros E. apply existsb_exists in E. destruct E as (j & Hj & Ej).
+      apply filter_In in Hj. destruct Hj as [_ Hj]. apply N.eqb_eq in Ej. subst j. rewrite N.eqb_refl in Hj. discriminate. }
+    destruct (dealloc_cases d a id HR) as [(Hl & Ed)|(Hl & st' & Ed & HR')]; rewrite Ed; cbn [fst].
+    + apply IH.
+      * apply store_refines; [|exact Hnl]. rewrite drop_notin by (apply live_false; assumption). rewrite a_with_same. assumption.
+      * cbn [a_store a_with_recs a_recs addrs map n_addr]. fold (addrs (drop id (a_recs a))). rewrite addrs_drop. assumption.
+    + apply IH.
+      * apply store_refines; [assumption|exact Hnl].
+      * cbn [a_store a_with_recs a_recs addrs map n_addr]. fold (addrs (drop id (a_recs a))). rewrite addrs_drop. assumption.
   - apply IH; assumption.
   - apply andb_true_iff in HV. destruct HV as [_ HV]. apply IH; assumption.
   - apply IH; assumption.
@@ -116,6 +128,8 @@ Fixpoint nodes (p : stamp) (stg seq : N) (l : list stmt) : list node :=
   | [] => []
   | SAlloc id sz k :: r =>
       if existsb (frees id) r then nodes p stg (seq + 1) r else mkNode id sz seq 0 0 k p stg :: nodes p stg (seq + 1) r
+  | SRealloc id sz :: r =>
+      if existsb (frees id) r then nodes p stg (seq + 1) r else mkNode id sz seq 0 0 2 p stg :: nodes p stg (seq + 1) r
   | _ :: r => nodes p stg seq r
   end.
 Definition notfreed (T : list stmt) (n : node) : bool := negb (existsb (frees (n_addr n)) T).
@@ -123,22 +137,30 @@ Definition notfreed (T : list stmt) (n : node) : bool := negb (existsb (frees (n
 Lemma nodes_leaked p stg : forall l seq, map ent (nodes p stg seq l) = leaked seq l.
 Proof.
   induction l as [|s r IH]; intros seq; [reflexivity|].
-  destruct s; cbn [nodes leaked]; try apply IH. destruct (existsb (frees id) r); cbn [map]; rewrite IH; reflexivity.
+  destruct s; cbn [nodes leaked]; try apply IH; destruct (existsb (frees id) r); cbn [map]; rewrite IH; reflexivity.
 Qed.
 Lemma nodes_period p stg : forall l seq n, In n (nodes p stg seq l) -> n_period n = p.
 Proof.
   induction l as [|s r IH]; intros seq n H; [destruct H|].
-  destruct s; cbn [nodes] in H; try (eapply IH; eassumption).
-  destruct (existsb (frees id) r); [eapply IH; eassumption|]. destruct H as [<-|H]; [reflexivity|eapply IH; eassumption].
+  destruct s; cbn [nodes] in H; try (eapply IH; eassumption);
+    (destruct (existsb (frees id) r); [eapply IH; eassumption|]; destruct H as [<-|H]; [reflexivity|eapply IH; eassumption]).
 Qed.
 Lemma nodes_demote stg : forall l seq, map demote (nodes SChecking stg seq l) = nodes SEnabled stg seq l.
 Proof.
   induction l as [|s r IH]; intros seq; [reflexivity|].
-  destruct s; cbn [nodes]; try apply IH. destruct (existsb (frees id) r); cbn [map]; rewrite IH; reflexivity.
+  destruct s; cbn [nodes]; try apply IH; destruct (existsb (frees id) r); cbn [map]; rewrite IH; reflexivity.
 Qed.
 
 Lemma filter_notfreed_free id r recs :
   filter (notfreed (SFree id :: r)) recs = filter (notfreed r) (drop id recs).
+Proof.
+  induction recs as [|n l IH]; [reflexivity|]. unfold drop in *. cbn [filter]. rewrite IH.
+  unfold notfreed at 1. cbn [existsb frees]. unfold has_addr. rewrite (N.eqb_sym id).
+  destruct (n_addr n =? id); cbn [orb negb filter]; [reflexivity|]. unfold notfreed. reflexivity.
+Qed.
+
+Lemma filter_notfreed_realloc id sz r recs :
+  filter (notfreed (SRealloc id sz :: r)) recs = filter (notfreed r) (drop id recs).
 Proof.
   induction recs as [|n l IH]; [reflexivity|]. unfold drop in *. cbn [filter]. rewrite IH.
   unfold notfreed at 1. cbn [existsb frees]. unfold has_addr. rewrite (N.eqb_sym id).
@@ -160,6 +182,9 @@ Proof.
         by (apply filter_ext; intros n; unfold notfreed; reflexivity).
       destruct (existsb (frees id) r); cbn [negb]; [reflexivity|]. cbn [rev]. rewrite <- app_assoc. reflexivity.
     + repeat split; try reflexivity. rewrite filter_notfreed_free. reflexivity.
+    + rewrite len_cons. repeat split; try reflexivity; try lia.
+      cbn [filter]. unfold notfreed at 1. cbn [n_addr]. rewrite filter_notfreed_realloc.
+      destruct (existsb (frees id) r); cbn [negb]; [reflexivity|]. cbn [rev]. rewrite <- app_assoc. reflexivity.
     + repeat split; reflexivity.
     + repeat split; reflexivity.
     + repeat split; reflexivity.
@@ -174,10 +199,9 @@ Lemma nodes_app p stg : forall T0 T seq,
 Proof.
   induction T0 as [|s r IH]; intros T seq.
   - cbn. unfold allocs. cbn. rewrite N.add_0_r. reflexivity.
-  - destruct s; cbn [app nodes]; unfold allocs; cbn [filter is_alloc]; fold (allocs r); try apply IH.
-    rewrite len_cons. fold (allocs r). rewrite existsb_app.
-    replace (seq + (allocs r + 1)) with (seq + 1 + allocs r) by lia.
-    destruct (existsb (frees id) r) eqn:E1; cbn [orb].
-    + apply IH.
-    + cbn [filter]. unfold notfreed at 1. cbn [n_addr]. destruct (existsb (frees id) T); cbn [negb app]; rewrite IH; reflexivity.
+  - destruct s; cbn [app nodes]; unfold allocs; cbn [filter is_alloc]; fold (allocs r); try apply IH;
+      (rewrite len_cons; fold (allocs r); rewrite existsb_app;
+       replace (seq + (allocs r + 1)) with (seq + 1 + allocs r) by lia;
+       destruct (existsb (frees id) r) eqn:E1; cbn [orb];
+       [apply IH|cbn [filter]; unfold notfreed at 1; cbn [n_addr]; destruct (existsb (frees id) T); cbn [negb app]; rewrite IH; reflexivity]).
 Qed.
